@@ -47,6 +47,9 @@ var lexHosts = []lexHost{
 	{4, "property", `{"type":"Feature","geometry":{"type":"Point","coordinates":[1,2]},"properties":{"k":`, `}}`, []string{"properties"}},
 	{4, "geometry-member", `{"type":"Feature","properties":null,"geometry":{"type":"Polygon","coordinates":[[[0,0],[1,0],[1,1],[0,0]]],"x":`, `}}`, []string{"geometry"}},
 	{6, "coordinate", `{"type":"Point","coordinates":[`, `,2]}`, nil},
+	{7, "coordinate", `{"type":"Point","coordinates":[`, `,2]}`, nil},
+	{7, "linestring-y", `{"type":"LineString","coordinates":[[1,2],[3,`, `],[5,6]]}`, nil},
+	{7, "polygon-x", `{"type":"Polygon","coordinates":[[[0,0],[`, `,0],[1,1],[0,0]]]}`, nil},
 	{6, "linestring-y", `{"type":"LineString","coordinates":[[1,2],[3,`, `],[5,6]]}`, nil},
 	{5, "point-first-member", `{"x":`, `,"type":"Point","coordinates":[1,2]}`, []string{}},
 	{5, "linestring-first-member", `{"x":`, `,"coordinates":[[1,2],[3,4]],"type":"LineString"}`, []string{}},
@@ -188,7 +191,7 @@ func lex(args []string) error {
 						exp = "rej" // valid JSON, but not an object with a "type"
 					case 2, 4, 5:
 						exp = "acc"
-					case 3, 6:
+					case 3, 6, 7:
 						exp = "uns"
 						if f, err := strconv.ParseFloat(strings.Trim(frag, " \t\r\n"), 64); err == nil && !math.IsInf(f, 0) {
 							exp, wantX = "acc", f
@@ -215,17 +218,20 @@ func lex(args []string) error {
 					case got == "panic" || got == "both" || got == "neither":
 						bad = true
 					case exp == "uns":
-					case (ctx == 3 || ctx == 6) && po != nil && po.RequireValid && math.Abs(wantX) > 90: // out of range under RequireValid: rejection is the option's doing
+					case (ctx == 3 || ctx == 6 || ctx == 7) && po != nil && po.RequireValid && math.Abs(wantX) > 90: // out of range under RequireValid: rejection is the option's doing
 					case got != exp:
 						bad = true
 						why = map[string]string{"rej": "the text is not valid JSON or lacks what its type requires, it must be rejected", "acc": "the text is a well-formed GeoJSON object with foreign members, it must be accepted"}[exp]
 						if ctx == 1 {
 							why = "a text without a string \"type\" member must be rejected"
 						}
-					case got == "acc" && (ctx == 3 || ctx == 6):
+					case got == "acc" && (ctx == 3 || ctx == 6 || ctx == 7):
 						gotX := o.Center().X
 						if ls, ok := o.(*geojson.LineString); ok {
 							gotX = ls.Base().PointAt(1).Y
+						}
+						if pg, ok := o.(*geojson.Polygon); ok {
+							gotX = pg.Base().Exterior.PointAt(1).X
 						}
 						if math.Float64bits(gotX) != math.Float64bits(wantX) {
 							bad, why = true, fmt.Sprintf("ordinate = %v, a standard decoder reads %v", gotX, wantX)
